@@ -78,12 +78,19 @@ def check_guarded(ctx, key, body, targets, guards, what, start=0, min_targets=1)
     for g in guards:
         edges, blocks = pass_edges(body, g)
         gl = guard_label(g)
+        via = []
+        if g[0] in ("bool_call", "enum") and (not blocks or not body.unreachable_without(targets, edges, start)[0]):
+            # the test may have been extracted into a helper: `Self::ensure_x(..)?` counts when, inside the helper, Ok is reachable only
+            # through the same guard (one level, functions of the analysed crates only)
+            he, hv = helper_pass_edges(ctx, body, g)
+            if he:
+                edges, blocks, via = edges + he, blocks + [x for x, _ in he], hv
         if not blocks:
             ctx.ob(f"{key}|guard:{gl}", False, f"{what}: no guard `{gl}` found in {body.name}", body.loc())
             allok = False
             continue
         ok, wit = body.unreachable_without(targets, edges, start)
-        detail = f"{what}: guard `{gl}` at bb{blocks} " + (
+        detail = f"{what}: guard `{gl}` at bb{blocks}" + (f" (through helper {via})" if via else "") + " " + (
             "dominates all target sites" if ok else f"is BYPASSED: path {body.fmt_path(wit)} reaches the target without passing it")
         ctx.ob(f"{key}|guard:{gl}", ok, detail, body.loc(wit[-1]) if wit else body.loc(blocks[0]))
         if ok:
@@ -91,6 +98,26 @@ def check_guarded(ctx, key, body, targets, guards, what, start=0, min_targets=1)
                         "guard": gl, "guard_blocks": blocks[:6]})
         allok = allok and ok
     return allok
+
+
+def helper_pass_edges(ctx, body, g):
+    """success edges of `helper(..)?` sites whose helper returns Ok only through guard g -> ([(switch_bb, succ)], [helper names])"""
+    F = body.F
+    edges, names = [], []
+    for sb, ps, fs, cbb in body.try_guards(r""):
+        callee = body.term(cbb)["f"]
+        if callee not in F.fns or callee == body.name or F.fns[callee].kind == "Closure":
+            continue
+        try:
+            hb = ctx.body(callee)
+        except Exception:
+            continue
+        e, bl = pass_edges(hb, g)
+        oks = hb.ok_exits()
+        if bl and oks and hb.unreachable_without(oks, e)[0]:
+            edges += [(sb, p) for p in ps]
+            names.append(callee.rsplit("::", 1)[1])
+    return edges, names
 
 
 def call_blocks(body, pattern):
